@@ -471,8 +471,11 @@ def cli_oracle(pid, o, groups):
         if o["rc"] != 0:
             if go_on_stdout:
                 fails.append(("failing run wrote Go source to standard output", "stdout on failure"))
-            if not o["stderr"].strip():
-                fails.append(("failing run printed no diagnostic", "no diagnostic"))
+            # the usage text that follows every error is not a diagnostic of this failure
+            diag = re.split(r"(?m)^  -\w", o["stderr"].split("moq [flags] source-dir interface")[0])[0].strip()
+            if not diag:
+                fails.append(("failing run printed no diagnostic (only the usage text)" if o["stderr"].strip()
+                              else "failing run printed no diagnostic", "no diagnostic"))
             if outkey and outkey in o["changed"]:
                 a, b = o["changed"][outkey]
                 if not (o["rm"] and b is None):
